@@ -9,6 +9,18 @@ hook_commits = sh("git -C /repo log --format=%h --grep='^verif-hooks:' --reverse
 
 CHECKS = {
  # id: (engine, technique, level text, level note, design ref)
+ "C01": ("RunnerLab+StreamLab", "PBT: streams recorded from the real runner under generated plans/schedules and directly generated contract-abiding streams are fed to 13 built-in stats pipelines and to Cucumber::run_and_exit over a replaying runner; verdict recomputed from the stream (reference model), both directions checked in every case",
+         "execution_has_failed(), the run_and_exit panic and the libtest suite line agree with a verdict recomputed from the event stream for generated outcomes x retry budgets x hooks x pipelines x interleavings. Known finding D2 (hook failure in a non-final attempt) is excluded by construction and counted.",
+         "Final = retries None or left == 0 or NotFound (reading R1). User code -> stream is decided by C02/C10.", "6/C01"),
+ "C11": ("StreamLab", "PBT over random happened-before-respecting linearisations of generated run trees; validity predicate evaluated after every handle_event call of Normalize<Recorder>; all linearisations of small trees enumerated",
+         "Losslessness, nesting/contiguity, per-attempt order, immediate forwarding, promptness (R6) and pass-through of sequential streams checked call by call for generated interleavings, including ones runner::Basic never produces; bounded-exhaustive for small trees.",
+         "Promptness follows reading R6.", "6/C11"),
+ "C12": ("StreamLab", "PBT: independent recount of generated normalised streams vs Summarize counters, getters and the parsed-back summary text, with and without Repeat",
+         "Counters, scenario classification, replay-insensitivity and the single summary write compared with an independent recount for generated streams covering every outcome path. Known findings D2/D5 excluded by construction and counted.",
+         "Aborted retry chains unconstrained (reading R2).", "6/C12"),
+ "C13": ("StreamLab", "PBT with a reference interpreter of 18 compiled writer nestings (FailOnSkipped/Repeat/Tee/Or/discard) over recorder leaves; arbitrary (also non-contract) streams; stats algebra checked with arbitrary leaf stats",
+         "Every recorder leaf's exact event/write sequence and the combined statistics equal the reference interpreter's prediction for generated streams and all zoo nestings.",
+         "Nestings are a fixed zoo of 18 type-checking compositions.", "6/C13"),
  "C02": ("RunnerLab", "model-based PBT: generated features x outcome plans x harness-owned schedules against the real runner; per-attempt reference automaton + fault accounting; proptest generation/shrinking; bounded-exhaustive schedule DFS for small cases",
          "Every attempt observed in thousands of generated runs (all outcome kinds at every position, hooks, retries, concurrent interleavings chosen by the harness) equals the prediction of an independent reference model of one attempt; all schedules of small cases enumerated. Exploration: evidence within the generated bounds, no proof.",
          "Shared background steps / World::new are judged by admissibility + global accounting. Trusts the harness driver and the 60-line model.", "6/C02"),
@@ -64,8 +76,8 @@ manifest = {
         "add_only": True,
     },
     "engines": [
-        {"name": "RunnerLab", "path": "/verif/harness/src/lab", "serves_properties": [p for p in all_ids if p in CHECKS and CHECKS[p][0] == "RunnerLab"], "kind_free_text": "real runner::Basic polled by a hand-written executor; gates in user callbacks and parser stream; schedule is a generated input"},
-        {"name": "StreamLab", "path": "/verif/harness/src/stream", "serves_properties": [p for p in all_ids if p in CHECKS and CHECKS[p][0] == "StreamLab"], "kind_free_text": "generated contract-abiding event streams fed to the real writers"},
+        {"name": "RunnerLab", "path": "/verif/harness/src/lab", "serves_properties": [p for p in all_ids if p in CHECKS and "RunnerLab" in CHECKS[p][0]], "kind_free_text": "real runner::Basic polled by a hand-written executor; gates in user callbacks and parser stream; schedule is a generated input"},
+        {"name": "StreamLab", "path": "/verif/harness/src/stream", "serves_properties": [p for p in all_ids if p in CHECKS and "StreamLab" in CHECKS[p][0]], "kind_free_text": "generated contract-abiding event streams fed to the real writers"},
         {"name": "FuncLab", "path": "/verif/harness/src/func", "serves_properties": [p for p in all_ids if p in CHECKS and CHECKS[p][0] == "FuncLab"], "kind_free_text": "pure-function differential / reference-model checks"},
     ],
     "checks": [entry(p) for p in all_ids if p in CHECKS],
